@@ -113,7 +113,8 @@ func roleMenu(w *world.World, o menuOpts, toks [][]byte) []world.Action {
 		for _, a := range users(o) {
 			acc := w.Get(a)
 			for _, r := range roles {
-				has := spec.HasRole(acc, string(tok), r)
+				_ = acc
+				has := w.GhostHasRole(a, string(tok), r) // what the system contract believes (A7 a)
 				if r == vmcommon.ESDTRoleNFTCreate {
 					if !has && anyHolder(w, string(tok), r) == nil && !handoverInFlight(w, string(tok)) && w.Ghost.Highest[string(tok)] == 0 {
 						acts = append(acts, uni.SetRole(a, tok, r))
@@ -131,12 +132,14 @@ func roleMenu(w *world.World, o menuOpts, toks [][]byte) []world.Action {
 		for _, a := range users(o) {
 			var heldRoles []string
 			for _, r := range roles {
-				if r != vmcommon.ESDTRoleNFTCreate && spec.HasRole(w.Get(a), string(tok), r) {
+				if r != vmcommon.ESDTRoleNFTCreate && w.GhostHasRole(a, string(tok), r) {
 					heldRoles = append(heldRoles, r)
 				}
 			}
 			if len(heldRoles) >= 2 {
 				acts = append(acts, uni.UnSetRole(a, tok, heldRoles[:2]...))
+				// in the reverse of the granting order as well
+				acts = append(acts, uni.UnSetRole(a, tok, heldRoles[len(heldRoles)-1], heldRoles[0]))
 				if len(heldRoles) > 2 {
 					acts = append(acts, uni.UnSetRole(a, tok, heldRoles...))
 				}
